@@ -256,6 +256,22 @@ def eval_case(c):
         if not np.array_equal(out2.view(np.float64), scm.view(np.float64)):
             j = int(np.argmax(out2 != scm))
             V('vectorize-modulus-viscosity-differs-from-scalar', f'{model}: vectorize_modulus_viscosity[{j}] = {out2[j]!r} but scalar call gives {scm[j]!r}', model=model, w=w0)
+        # awkward array lengths (not multiples of typical block sizes): every output element is written and equals the scalar call
+        for n_ in (1, 7, 255, 257, 263, 1001, 4099):
+            wn = np.ascontiguousarray(10 ** rng.uniform(-12, 2, n_))
+            on = np.full(n_, complex(np.nan, np.nan))
+            m.vectorize_frequency(wn, mu0, eta0, on)
+            mn, en = np.ascontiguousarray(10 ** rng.uniform(3, 13, n_)), np.ascontiguousarray(10 ** rng.uniform(0, 30, n_))
+            on2 = np.full(n_, complex(np.nan, np.nan))
+            m.vectorize_modulus_viscosity(w0, mn, en, on2)
+            idx = sorted(set(range(max(0, n_ - 16), n_)) | set(int(x) for x in rng.integers(0, n_, 12)))
+            cnt['path_comparisons'] += 2 * len(idx)
+            badf = [j for j in idx if not (complex(m(float(wn[j]), mu0, eta0)) == on[j])]
+            badm = [j for j in idx if not (complex(m(w0, float(mn[j]), float(en[j]))) == on2[j])]
+            if badf or badm or np.isnan(on.real).any() or np.isnan(on2.real).any():
+                j = (badf or badm or [int(np.argmax(np.isnan(on.real) | np.isnan(on2.real)))])[0]
+                V('vectorize-awkward-length', f'{model}: array helpers on length {n_}: element {j} is {on[j]!r} / {on2[j]!r} (vectorize_frequency / vectorize_modulus_viscosity) and differs from the scalar call or was never written', model=model, n=n_)
+                break
         # non-contiguous views: either refused with an exception or evaluated element for element like the scalar call
         big = np.empty(2 * NB)
         big[::2] = ws
